@@ -11,6 +11,22 @@ func registry() map[string]*Rule {
 		{Name: "ERR1", Floor: 30, Run: ruleERR1, Doc: "every error-returning call in the library has its error examined or propagated (deferred Rollback/Close cleanups excepted)"},
 		{Name: "ERR2", Floor: 10, Run: ruleERR2, Doc: "from a branch on which an error value is known non-nil, no return of a nil error is reachable, except under errors.Is(err, ErrStopIteration | badger.ErrKeyNotFound)"},
 		{Name: "ERR3", Floor: 3, Run: ruleERR3, Doc: "every loop that hands elements to an error-returning callback tests the error, leaves the loop when it is non-nil, and translates the stop sentinel into a nil return"},
+		{Name: "KEY1", Floor: 6, Run: ruleKEY1, Doc: "every key template used as a scan bound (Seek / HasPrefix / TrimPrefix) ends in a literal delimiter or a self-delimiting encoding, never in a name"},
+		{Name: "KEY2", Floor: 8, Run: ruleKEY2, Doc: "key layouts are pairwise distinct, every variable part is ';'-terminated, and each scan bound covers exactly one layout"},
+		{Name: "KEY3", Floor: 5, Run: ruleKEY3, Doc: "per key layout: what is read or deleted is also written under the identical layout, and what is written is read or scanned"},
+		{Name: "KEY4", Floor: 2, Run: ruleKEY4, Doc: "in index keys the type rank precedes the encoded value, is delimited, and both derive from the same value"},
+		{Name: "VIS1", Floor: 8, Run: ruleVIS1, Doc: "every value a criteria visitor returns satisfies every unchecked type assertion made on that visitor's results; nil only under the visitor's error-flag idiom with every assertion guarded"},
+		{Name: "NIL1", Floor: 8, Run: ruleNIL1, Doc: "the pointer result of a (ptr, error) function that can return (nil, err) is dereferenced only behind the err == nil / ptr != nil test"},
+		{Name: "OPS1", Floor: 8, Run: ruleOPS1, Doc: "every operator constant the library constructs has a case in UnaryCriteria.Satisfy, and operators routed to a helper are covered by its inner switch"},
+		{Name: "OPS2", Floor: 3, Run: ruleOPS2, Doc: "for each operator, the static type the builders store in Value equals the type the evaluator asserts unchecked"},
+		{Name: "PANIC1", Floor: 3, Run: rulePANIC1, Doc: "every explicit panic site is tied to the rule that makes it unreachable; a new one is undecided"},
+		{Name: "IDX1", Floor: 4, Run: ruleIDX1, Doc: "every document-record write is dominated by index additions for the same document, every document-record delete by index removals, over the index set built from the catalog metadata of the same transaction"},
+		{Name: "IDX2", Floor: 2, Run: ruleIDX2, Doc: "the document passed to a user updater is not read afterwards to locate the old index entries"},
+		{Name: "IDX3", Floor: 3, Run: ruleIDX3, Doc: "the collection counter changes only with evidence (len of the documents saved here; a successful key lookup; a counter incremented next to each delete) and the metadata is written back on every success path"},
+		{Name: "IDX4", Floor: 6, Run: ruleIDX4, Doc: "no consumer of a live scan performs destructive store writes (snapshot-then-apply); insert-only writes only under a criteria-less NewQuery scan; the updater runs at loop depth <= 1"},
+		{Name: "ID1", Floor: 3, Run: ruleID1, Doc: "a document record is written under a key built from its own ObjectId(), or behind an equality test between its ObjectId() and the id the key was built from"},
+		{Name: "ID2", Floor: 4, Run: ruleID2, Doc: "Tx.Set of a document is reached only after document.Validate accepted it; every save is behind a nil test of Tx.Get on the same key or saves scan-produced documents"},
+		{Name: "ID3", Floor: 1, Run: ruleID3, Doc: "a generated _id is assigned only when _id is absent or empty"},
 	}
 	m := map[string]*Rule{}
 	for _, r := range rules {
